@@ -477,6 +477,13 @@ func (p *abandonProbe) check() bool {
 type httpLeg struct {
 	handler *e2e.Handler
 	srv     *httptest.Server
+	client  *http.Client // nil: http.DefaultClient
+}
+
+// keepAlive: n concurrent posters each keep a connection of their own open
+// (the default client keeps two per host and dials anew for the others).
+func (l *httpLeg) keepAlive(n int) {
+	l.client = &http.Client{Transport: &http.Transport{MaxIdleConns: n + 2, MaxIdleConnsPerHost: n + 2}}
 }
 
 func startHTTPLeg(proto string) *httpLeg {
@@ -485,7 +492,12 @@ func startHTTPLeg(proto string) *httpLeg {
 	return l
 }
 
-func (l *httpLeg) stop() { l.srv.Close() }
+func (l *httpLeg) stop() {
+	if l.client != nil {
+		l.client.Transport.(*http.Transport).CloseIdleConnections()
+	}
+	l.srv.Close()
+}
 
 // post sends one frame; it returns the decoded response frame (200 only), the
 // status and a transport-level error text.
@@ -499,7 +511,11 @@ func (l *httpLeg) post(frame []byte, respLimit int) ([]byte, int, string) {
 	if respLimit > 0 {
 		req.Header.Set("x-frugal-payload-limit", fmt.Sprint(respLimit))
 	}
-	resp, err := http.DefaultClient.Do(req)
+	cl := l.client
+	if cl == nil {
+		cl = http.DefaultClient
+	}
+	resp, err := cl.Do(req)
 	if err != nil {
 		return nil, 0, err.Error()
 	}
